@@ -69,8 +69,18 @@ def _txt(fi, e, ghosts=()):
     return unparse(e)
 
 
+def _is_zero(e):
+    return isinstance(e, ast.Constant) and e.value == 0 and not isinstance(e.value, bool)
+
+
 def canon_compare(fi, left, op, right, ghosts=()):
-    """One comparison -> ((op, a, b), truth) or None.  Ordered operators are reduced to '<', '==' / 'is' have sorted sides."""
+    """One comparison -> ((op, a, b), truth) or None.  Ordered operators are reduced to '<', '==' / 'is' have sorted sides;
+    a difference compared with zero is the comparison of its operands (a - b > 0  ==  b < a)."""
+    li, ri = inline_locals(fi.node, left), inline_locals(fi.node, right)
+    if _is_zero(ri) and isinstance(li, ast.BinOp) and isinstance(li.op, ast.Sub) and isinstance(op, (ast.Lt, ast.LtE, ast.Gt, ast.GtE, ast.Eq, ast.NotEq)):
+        left, right = li.left, li.right
+    elif _is_zero(li) and isinstance(ri, ast.BinOp) and isinstance(ri.op, ast.Sub) and isinstance(op, (ast.Lt, ast.LtE, ast.Gt, ast.GtE, ast.Eq, ast.NotEq)):
+        left, right = ri.right, ri.left
     l, r = _txt(fi, left, ghosts), _txt(fi, right, ghosts)
     t = type(op)
     if t is ast.Lt:
